@@ -3,6 +3,7 @@ import env, sys, json, random, time, hashlib, re
 from functools import lru_cache
 import framework as fw
 import engine_runner as er
+import oracles as orc
 from gen import SchemaGen, DocGen, print_sdl
 from pyval import enc
 
@@ -113,6 +114,17 @@ async def explore(tier, seed):
                         got = f"raised {type(e).__name__}: {e}"
                     stats["evaluations"] += 1
                     stats["kinds"][kind] = stats["kinds"].get(kind, 0) + 1
+                    # every error must speak about THIS request: its path exists in this response's data (state kept from an
+                    # earlier request shows up as a path / location of another document)
+                    if isinstance(q, str) and not got.startswith("raised") and r.get("errors"):
+                        try:
+                            doc_ = er.parse_doc(q)
+                            shape = [x for x in orc.check_errors(doc_, enc(r.get("data")), er.canon_errors(r.get("errors")), r.get("errors")) if "does not exist in data" in x or "absent from data" in x or "outside the field" in x]
+                        except Exception:
+                            shape = []
+                        if shape:
+                            stats["problems"].append({"what": shape[:3], "cache": cname, "position": i, "query": q, "operation_name": opn, "variables": variables, "response": json.loads(json.dumps(r, default=str))})
+                            break
                     repeated = any(h[1] == q for h in hist[:i])
                     if repeated: stats["nontrivial"].add(hashlib.sha256(repr((si, hi, cname, i)).encode()).hexdigest()[:16])
                     if got != expected[i]:
